@@ -10,6 +10,7 @@ GENERATORS = [
     ("evalfacts", "EvalFacts.lean", ["{repo}"]),
     ("numfacts", "NumFacts.lean", ["{repo}"]),
     ("chanfacts", "ChanFacts.lean", ["{repo}"]),
+    ("statefacts", "StateFacts.lean", ["{repo}"]),
 ]
 
 
